@@ -3,13 +3,16 @@
 (* Bounded instance of CacheSeq and case generator (binding A).            *)
 (*                                                                         *)
 (* TLC explores every history of at most MaxPut stores and MaxDam acts of  *)
-(* damage (lookups do not change the state and are leaves), checks the     *)
-(* laws of CacheSeq in every state, and -- the history being hidden by the *)
-(* VIEW -- emits one test per transition of the state graph: a             *)
-(* representative path to the state, the action, what the model predicts   *)
-(* for it, whether the statement fixes that prediction (strict) and the    *)
-(* directory afterwards.  harness/drivers/cacheseq replays each test into  *)
-(* the real cache package.                                                 *)
+(* damage, checks the laws of CacheSeq in every state, and -- the history  *)
+(* being hidden by the VIEW -- emits one test per state-changing           *)
+(* transition s -a-> s' of the state graph: a representative path to s,    *)
+(* the action a, what the model predicts for it, the directory in s' and   *)
+(* the outcome of every lookup in s' together with the sentence of the     *)
+(* statement (if any) that fixes it.  The lookups (Get, GetBytes, GetFile, *)
+(* OutputFile) do not change the state: they are the self-loops of s' and  *)
+(* are all exercised by the test that reaches s' (one more test for the    *)
+(* initial state), instead of one replay of the path per lookup.           *)
+(* harness/drivers/cacheseq replays each test into the real cache package. *)
 (***************************************************************************)
 EXTENDS CacheSeq, Json
 
@@ -36,6 +39,7 @@ RenderData(d) == IF d.ex THEN "=" \o RenderB(d.b) ELSE "-"
 
 \* the judged action is the last of the new history
 LastStep == hist'[Len(hist')]
+NoStep == [op |-> "none", id |-> "-", c |-> "-", n |-> 0, s |-> "-"]
 
 IsLookup(st) == st.op \in {"get", "getbytes", "getfile"}
 IsPut(st) == st.op \in {"put", "putbytes"}
@@ -67,13 +71,23 @@ Case == [p |-> [k \in 1..Len(hist') |-> RenderStep(hist'[k])],
          \* what every lookup returns afterwards and which law (if any) fixes it
          look |-> [id \in Ids |-> <<RenderRes(GetRes(id)'), RenderRes(BytesRes(id)'), RenderRes(FileRes(id)'), LawFor(id)'>>]]
 
-Config == [config |-> [str |-> [c \in Contents |-> RenderB(Blocks(c))], ghost |-> Ghost, ids |-> Ids,
-                       maxput |-> MaxPut, maxdam |-> MaxDam]]
+\* number of self-loops of every state (the check uses it to verify that nothing was left out)
+LookupsPerState == 3 * Cardinality(Ids) + Cardinality(Outs)
 
-EmitCase == IF Emit THEN PrintT(<<"EMIT", ToJson(Case)>>) ELSE TRUE
+Config == [config |-> [str |-> [c \in Contents |-> RenderB(Blocks(c))], ghost |-> Ghost, ids |-> Ids,
+                       maxput |-> MaxPut, maxdam |-> MaxDam, lookups |-> LookupsPerState]]
+
+Changes(st) == ~IsLookup(st) /\ st.op # "outputfile"
+
+EmitCase == IF Emit /\ Changes(LastStep) THEN PrintT(<<"EMIT", ToJson(Case)>>) ELSE TRUE
 EmitConfig == IF Emit THEN PrintT(<<"EMIT", ToJson(Config)>>) ELSE TRUE
 
-MCInit == Init /\ EmitConfig
+\* the initial state is a test with an empty path: the lookups of an empty cache
+InitCase == [p |-> <<>>, e |-> Expect(NoStep), nd |-> 0,
+             idx  |-> [id \in Ids |-> RenderIdx(idx[id])],
+             data |-> [c \in Contents |-> RenderData(data[c])],
+             look |-> [id \in Ids |-> <<RenderRes(GetRes(id)), RenderRes(BytesRes(id)), RenderRes(FileRes(id)), LawFor(id)>>]]
+MCInit == Init /\ EmitConfig /\ (IF Emit THEN PrintT(<<"EMIT", ToJson(InitCase)>>) ELSE TRUE)
 MCNext == Next /\ EmitCase
 MCSpec == MCInit /\ [][MCNext]_vars
 =============================================================================
